@@ -57,11 +57,20 @@ func (c *FnCtx) permuteSlice(st *State, v Val) {
 }
 
 // sortInterface models sort.Sort / sort.Stable on a struct with one slice field (see the file comment).
+// If the sorted type's Less has a contract clause labelled `order` of the form
+// `result <==> E(a, i, j)`, the sorted slice additionally satisfies, for all positions i < j,
+// !E(a, j, i) (and !E(a, i, j) when sorted through sort.Reverse): no later element is less than an
+// earlier one. That is what sort.Sort guarantees for any Less, whatever its properties.
 func (c *FnCtx) sortInterface(st *State, args []Val) bool {
 	if len(args) < 1 {
 		return false
 	}
-	v, ok := c.boxed[args[0].S]
+	term := args[0].S
+	reversed := false
+	if base, ok := c.revOf[term]; ok {
+		term, reversed = base, true
+	}
+	v, ok := c.boxed[term]
 	if !ok {
 		return false
 	}
@@ -105,6 +114,47 @@ func (c *FnCtx) sortInterface(st *State, args []Val) bool {
 		return false
 	}
 	c.permuteSlice(st, sv)
-	c.note("sort.Sort: modelled as an in-place permutation of " + shortCallee(key) + "." + s.Field(field).Name() + " (by the Len/Swap contracts of the sorted type); the resulting order (Less) is not modelled")
+	c.note("sort.Sort: modelled as an in-place permutation of " + shortCallee(key) + "." + s.Field(field).Name() + " (by the Len/Swap contracts of the sorted type)")
+	// ordering by the Less contract
+	if lfc := c.eng.cs.Funcs[key+".Less"]; lfc != nil {
+		for _, e := range lfc.Ensures {
+			if e.Label != "order" || e.Expr == nil || e.Expr.Op != "bin" || e.Expr.Name != "<==>" {
+				continue
+			}
+			c.usedContracts[key+".Less"] = lfc
+			recvName, iName, jName := "a", "i", "j"
+			if len(lfc.Names) == 3 {
+				recvName, iName, jName = lfc.Names[0], lfc.Names[1], lfc.Names[2]
+			} else if lf := c.eng.findFunction(lfc); lf != nil && len(lf.Params) == 3 {
+				recvName, iName, jName = lf.Params[0].Name(), lf.Params[1].Name(), lf.Params[2].Name()
+			}
+			c.nfresh++
+			qi := sym(fmt.Sprintf("q.si!%d", c.nfresh))
+			qj := sym(fmt.Sprintf("q.sj!%d", c.nfresh))
+			env := &SpecEnv{c: c, st: st, heap: st.heap, vars: map[string]Val{}, pkg: c.eng.pkgOf(lfc.PkgPath), foreign: true}
+			// the receiver of Less: the sorted struct (by value if Less has a value receiver)
+			recv := scalar(types.NewPointer(stt), obj)
+			if lf := c.eng.findFunction(lfc); lf != nil && len(lf.Params) > 0 {
+				if _, isPtr := lf.Params[0].Type().Underlying().(*types.Pointer); !isPtr {
+					recv = c.load(st, &Addr{Space: "F", Key: key, Idx: []string{obj}, Path: "", T: stt})
+				}
+			}
+			env.vars[recvName] = recv
+			// no later element is less than an earlier one: for i < j, !Less(j, i); reversed: !Less(i, j)
+			first, second := qj, qi
+			if reversed {
+				first, second = qi, qj
+			}
+			env.vars[iName] = mathInt(first)
+			env.vars[jName] = mathInt(second)
+			body, err := c.evalBool(env, e.Expr.Args[1])
+			if err != nil {
+				c.errs = append(c.errs, "sort.Sort: cannot evaluate the order clause of "+key+".Less: "+err.Error())
+				break
+			}
+			st.assume(fmt.Sprintf("(forall ((%s Int) (%s Int)) (=> (and (<= 0 %s) (< %s %s) (< %s %s)) (not %s)))", qi, qj, qi, qi, qj, qj, sv.Len(), body))
+			c.note("sort.Sort: the sorted slice is ordered by " + shortCallee(key) + ".Less (contract clause `order`): no later element is less than an earlier one")
+		}
+	}
 	return true
 }
